@@ -59,12 +59,34 @@ fn good_frame() -> &'static (Vec<u8>, Vec<u8>) {
     })
 }
 
+/// valid frames with Huffman literals, FSE tables, repeat offsets and a checksum, decoded before some of the hostile inputs
+fn history_frames() -> &'static Vec<(Vec<u8>, Vec<u8>)> {
+    static H: OnceLock<Vec<(Vec<u8>, Vec<u8>)>> = OnceLock::new();
+    H.get_or_init(|| {
+        let mut out = vec![good_frame().clone()];
+        let text: Vec<u8> = (0..6000u32).flat_map(|i| format!("line {} of some text, {}\n", i % 97, i * i % 1000).into_bytes()).collect();
+        out.push((refz::compress(&text, 19, &[CP::ChecksumFlag(true)], None).unwrap(), text));
+        out
+    })
+}
+
 /// Drive one input through one entry point with a legal call sequence. Returns a coarse outcome class.
 /// Any panic propagates to the caller (that is the violation).
 pub fn drive(entry: usize, input: &[u8], aux: &[u8], limit_8mib: bool) -> String {
     let mut d = FrameDecoder::new();
     if limit_8mib {
         d.set_max_window_size(8 << 20);
+    }
+    // a third of the cases run on a decoder that has decoded valid frames before (Huffman and FSE tables,
+    // repeat offsets, checksum and window contents of those frames are still in it): also a legal call sequence
+    if aux.first().map(|b| b % 3 == 0).unwrap_or(false) && entry != 10 {
+        for (g, want) in history_frames() {
+            let mut src = &g[..];
+            let ok = d.reset(&mut src).is_ok() && d.decode_blocks(&mut src, BlockDecodingStrategy::All).is_ok() && d.collect().as_deref() == Some(&want[..]);
+            if !ok {
+                return "REUSE-FAILED in the history".to_string();
+            }
+        }
     }
     let mut produced = 0usize;
     let outcome: String = match entry {
